@@ -21,10 +21,17 @@ def main():
 
     armed = [scen != 'forked_worker']
 
+    holding = []
+
     def cb(code, line):
         if not armed[0]:
             return
         cnt[0] += 1
+        if n_kill >= 10 ** 9:
+            # dry run: remember at which events the lock is held (the parent aims extra kills with contenders there)
+            l_ = ref[0]
+            if l_ is not None and l_.is_locked:
+                holding.append(cnt[0])
         if cnt[0] == n_kill:
             l = ref[0]
             try:
@@ -113,6 +120,8 @@ def main():
         l.acquire()
         ref[0] = None
         del l
+    if holding:
+        os.write(1, ('HOLDING ' + ','.join(map(str, holding)) + '\n').encode())
     os.write(1, f'TOTAL {cnt[0]}\n'.encode())
 
 
